@@ -140,7 +140,8 @@ impl DQuat {
     #[must_use]
     pub fn from_scaled_axis(v: DVec3) -> Self {
         let length = v.length();
-        if length == 0.0 {
+        // a subnormal squared length is too imprecise to normalize with: treat it like zero
+        if v.length_squared() < f64::MIN_POSITIVE {
             Self::IDENTITY
         } else {
             Self::from_axis_angle(v / length, length)
